@@ -36,7 +36,7 @@ check("C12", "model_checking",
       "DESIGN.md §5 C12", "lm")
 
 check("C18", "model_checking",
-      "Sequential: breadth-first search to a FIXPOINT over the finite state space of the real PeerRegistry with 3 peers and 3 keys (every reachable state, every letter in every state), plus all un-merged histories of depth 6/7; after every step every observer and all four broadcast encodings (one sink refusing) are compared with a reference model. Concurrent: loom explores all interleavings (unbounded DPOR) of 2-3 threads of alias/remove/insert/lookup/broadcast on colliding keys over the real peer.rs; each schedule must be linearizable w.r.t. the same model.",
+      "Sequential: breadth-first search to a FIXPOINT over the finite state space of the real PeerRegistry with 3 peers and 3 keys (every reachable state, every letter in every state), plus all un-merged histories of depth 6/7; after every step every observer and all nine broadcast forms (json, beve, utf8, raw; raw bytes that are not well-formed for their tag; empty bodies; one sink refusing every other notification) are compared with a reference model. Concurrent: loom explores all interleavings (unbounded DPOR) of 2-3 threads of alias/remove/insert/lookup/broadcast on colliding keys over the real peer.rs; each schedule must be linearizable w.r.t. the same model.",
       "Re-inserting an id that is still present is outside the documented precondition. HashMap iteration order is not controlled (results compared as sets).",
       "explicit-state search to fixpoint on the real object by replay + loom stateless model checking with brute-force linearizability",
       "DESIGN.md §5 C18", "mc+lm")
